@@ -182,7 +182,8 @@ def judge(case, impl, model, spec):
 LEVEL_TEXT = ("Lean 4 theorems over an executable model of WaitForCorrectVersion/GetConfigVersion/strconv.Atoi and the manager's version "
               "bookkeeping: wait_ok_iff (success iff a poll issued before the deadline was answered in time with exactly the expected "
               "version and no earlier one was) for every schedule, timeout and interval; versions_strictly_increase for every sequence of "
-              "reload outcomes; api_only_after_confirm. Partial: scheduler jitter and the HTTP stack are outside the model.")
+              "reload outcomes; api_only_after_confirm. Partial: scheduler jitter and the HTTP stack are outside the model."
+              ' Connection level: api_only_to_confirming_worker (updateConn).')
 LEVEL_NOTE = ("Assurance = weaker of (kernel-checked theorems about the model, differential correspondence of model vs real verifyClient / "
               "LocalManager on scripted answer schedules). Trusted: Lean kernel, propext/Quot.sound/Classical.choice, harness + canonicalisation, "
               "fake nginx binary in a private mount namespace, abstract time with a 20 ms margin rule.")
